@@ -26,6 +26,7 @@ TileMerger
 """.split()
 
 import numpy as np
+import os
 import warnings
 
 from . import pyramid
@@ -179,6 +180,14 @@ class TileMerger(object):
         img3 = self._pio.read_image(children[3], default="none")
 
         if img0 is None and img1 is None and img2 is None and img3 is None:
+            # Nothing lies beneath this tile (any more), so it must not exist
+            # either: a version left over from an earlier cascade would
+            # otherwise be merged into its own parents.
+            try:
+                os.unlink(self._pio.tile_path(pos, makedirs=False))
+            except FileNotFoundError:
+                pass
+
             return
 
         if self._buf is not None:
